@@ -660,7 +660,16 @@ def main(run):
                 "ixai/imputer/marginal_imputer.py:MarginalImputer._sample_marginals",
                 "ixai/imputer/marginal_imputer.py:MarginalImputer._sample_product_marginals")
     sh, nsh = run.shard
-    jobs = [("outcome", i, c) for i, c in enumerate(OUTCOME_CFGS)] + [("draw", i, c) for i, c in enumerate(DRAW_CFGS)] \
+    grnd = random.Random(run.seed + 4242)       # extra configurations drawn from VERIF_SEED (identical in every shard)
+    extra_out, extra_draw = [], []
+    for _ in range(2):
+        kind = grnd.choice(["sage", "pfi", "batch", "sage-override"])
+        d_, m_ = grnd.choice([2, 3]), grnd.choice([2, 3, 4])
+        n_ = grnd.choice([1, 2]) if d_ * m_ <= 8 else 1
+        extra_out.append((kind, grnd.choice(["joint", "product"]), d_, m_, max(n_, 2) if kind.endswith("override") else n_))
+        extra_draw.append((grnd.choice(["sage", "pfi", "batch"]), grnd.choice(["joint", "product"]), grnd.choice([2, 3, 4]),
+                           grnd.choice([2, 3, 4, 6, 30, 300]), grnd.choice([1, 2, 3])))
+    jobs = [("outcome", i, c) for i, c in enumerate(OUTCOME_CFGS + extra_out)] + [("draw", i, c) for i, c in enumerate(DRAW_CFGS + extra_draw)] \
         + [("order", i, c) for i, c in enumerate(ORDER_CFGS)] + [("moving", i, c) for i, c in enumerate(MOVING_CFGS)]
     # every shard must touch every anchor: shards run a slice of jobs, coverage is merged by the parent
     for j, (what, i, c) in enumerate(jobs):
